@@ -23,7 +23,12 @@ CONFIG = {
             "string and whose content is an IntSafe object: case variants of protected keys are INSIDE the specification stream and must be dropped). redact.pdu / pdu_props: "
             "PDU.Redact() twice on events built with EventBuilder.Build (real ed25519) and on hand-made trusted events; the "
             "property relations (ids, event ID, redacted flag, idempotence, JSON = redaction of the original, signature still "
-            "verifies with VerifyJSON) evaluated on the real code. non-trivial = the implementation returned a redacted event",
+            "verifies with VerifyJSON) evaluated on the real code. redact.pdu_check / pdu_after (round 3): Redact() after every route an event can take - trusted / "
+            "with-ID / untrusted constructor x preparation sequence (EventID(), JSON(), Sign(), SetUnsigned() in 8 orders) on built events and on hand-made trusted events "
+            "with and without an `event_id` member in every format and with numbers the strict canonical form refuses in kept (depth, origin_server_ts, users_default) and "
+            "dropped (unsigned) positions; the harness evaluates json = canonical RedactEventJSON(JSON() just before), redacted flag, ids, event ID, our signature still "
+            "verifying, second Redact() a no-op; pdu_after hands the before / after JSON to the Lean model, which recomputes the redaction (a panic is the documented answer "
+            "only for trusted JSON; on an event the untrusted constructor accepted it is a violation). non-trivial = the implementation returned a redacted event",
     "nontrivial": lambda op, impl: impl.startswith("ok:") or impl.startswith("ids="),
     "trusted": COMMON_TRUSTED + [
         "encoding/json modelled by VModel.Redact: exactFieldsOnly = decode into map[string]json.RawMessage (last duplicate wins, values raw, "
